@@ -128,6 +128,16 @@ impl<T> SocksRequest<T> {
             }
             _ => bail!("not supported addr type: {}", atype),
         };
+        if version != SOCKS_VER_5 {
+            // SOCKS5 was negotiated, so this is not a request to serve (nor one to answer in the
+            // format of another version): general failure
+            socket
+                .write_all(&[SOCKS_VER_5, 1, 0, SOCKS_ATYP_INET4, 0, 0, 0, 0, 0, 0])
+                .await
+                .context("write")?;
+            socket.flush().await.context("flush")?;
+            bail!("not a SOCKS5 request, version: {}", version)
+        }
         Ok(Self {
             version,
             cmd,
